@@ -370,6 +370,15 @@ func (w *Worker) load(o *Obj) Value {
 }
 
 func (w *Worker) store(o *Obj, v Value) {
+	if o.Glob && w.inInit == 0 && !w.restoring {
+		// package-level state written by a path is restored before the next path
+		if !w.globSaved[o] {
+			w.globSaved[o] = true
+			w.restoring = true
+			w.globUndo = append(w.globUndo, globUndo{o, w.load(o)})
+			w.restoring = false
+		}
+	}
 	if o.Leaf {
 		o.V = v
 		return
